@@ -1,7 +1,7 @@
-(* C07 requests: 700..716. *)
+(* C07 requests: 700..717. *)
 From Coq Require Import List ZArith Bool.
 From PV Require Import lib.Sx lib.Str lib.Result.
-From PV Require Import model.DfxpXml model.DfxpRegion model.DfxpDoc model.DfxpSkel model.DfxpSkelHead spec.SpecXmlAttr spec.SpecXmlDoc extract.OrCommon.
+From PV Require Import model.DfxpXml model.DfxpRegion model.DfxpDoc model.DfxpSkel model.DfxpSkelHead model.DfxpSkelBody spec.SpecXmlAttr spec.SpecXmlDoc extract.OrCommon.
 Import ListNotations.
 Open Scope Z_scope.
 
@@ -84,6 +84,38 @@ Definition sx_skdoc (x : sx) : option skdoc :=
 Definition count_opens (evs : list xev) : Z :=
   Z.of_nat (length (filter (fun e => match e with EOpen _ _ => true | _ => false end) evs)).
 
+(* round 4: the decorated caption set of model/DfxpSkelBody.v:
+   [layout; style table; [[layout; [[layout; style?; [[layout; span; content; inline] ...]; begin; end; inline] ...]; code; inline] ...]] *)
+Definition sx_xnode (x : sx) : option xnode :=
+  match x with
+  | SL [l; SI sp; c; il] => match sx_lay l, sx_pairs c, sx_pairs il with
+                            | Some l, Some c, Some il => Some (mkXnode (mkDnode (mkRnode l (negb (sp =? 0))) c) il)
+                            | _, _, _ => None end
+  | _ => None end.
+Definition sx_xcap (x : sx) : option xcap :=
+  match x with
+  | SL [l; st; ns; SS b; SS e; il] =>
+      match sx_lay l, sx_opt sx_pairs st, sx_listof sx_xnode ns, sx_pairs il with
+      | Some l, Some st, Some ns, Some il => Some (mkXcap l st ns b e il) | _, _, _, _ => None end
+  | _ => None end.
+Definition sx_xlang (x : sx) : option xlang :=
+  match x with
+  | SL [l; cs; SS code; il] => match sx_lay l, sx_listof sx_xcap cs, sx_pairs il with
+                               | Some l, Some cs, Some il => Some (mkXlang l cs code il) | _, _, _ => None end
+  | _ => None end.
+Definition sx_xset (x : sx) : option xset :=
+  match x with
+  | SL [l; sts; ls] =>
+      match sx_lay l, sx_listof (fun y => match y with
+                                          | SL [SS id; c] => match sx_pairs c with Some c => Some (id, c) | None => None end
+                                          | _ => None end) sts, sx_listof sx_xlang ls with
+      | Some l, Some sts, Some ls => Some (mkXset l sts ls) | _, _, _ => None end
+  | _ => None end.
+Fixpoint extra_of (l : list (Z * list (str * str))) (id : Z) : list (str * str) :=
+  match l with [] => [] | (k, a) :: t => if k =? id then a else extra_of t id end.
+Definition of_body (b : list sk_div) : sx :=
+  of_list (fun dv => SL [of_pairs (fst dv); of_list (fun p => SL [of_pairs (fst p); of_list of_pairs (snd p)]) (snd dv)]) b.
+
 Definition dispatch (code : Z) (arg : sx) : option sx :=
   match code with
   | 700 => Some (match arg with SS v => SS (attr_out v) | _ => bad end)
@@ -147,6 +179,19 @@ Definition dispatch (code : Z) (arg : sx) : option sx :=
                                             | _ => None end) arg with
                  | Some table => of_list of_pairs (style_elems table)
                  | None => bad end)
+  | 717 => Some (match arg with          (* [decorated set; [[region id; layout attributes] ...]] -> the tree of DfxpSkelBody.tree_of *)
+                 | SL [xs; ex] =>
+                     match sx_xset xs, sx_listof (fun y => match y with
+                                                          | SL [SI id; a] => match sx_pairs a with Some a => Some (id, a) | None => None end
+                                                          | _ => None end) ex with
+                     | Some x, Some ex =>
+                         let t := tree_of (extra_of ex) x in
+                         SL [of_list of_pairs (t_regions t); of_body (t_body t);
+                             of_list SS (tree_ids t); of_list SS (tree_style_refs t); of_list SS (tree_region_refs t);
+                             SI (ok_refs (tree_ids t) (tree_style_ids t) (tree_region_ids t) (tree_style_refs t) (tree_region_refs t));
+                             of_bool (dom_doc (erase x))]
+                     | _, _ => bad end
+                 | _ => bad end)
   | 714 => Some (match sx_skdoc arg with Some d => SS (dfxp_document d) | None => bad end)   (* the rendered document *)
   | 715 => Some (match arg with          (* a document text -> [accepted by the document machine; ns_ok; tt in TTML ns; elements] *)
                  | SS s => match doc_parse s with
